@@ -26,7 +26,11 @@ def main(tier, replay):
     good = hyd.validate(ck, "C01", scns, props)
     if not replay:
         def mutate(s, rows):
-            l = s["links"][0]["name"]
+            jn = {n["name"] for n in s["nodes"] if n["type"] == "J"}
+            # a link that carries water into a junction (so the junction is connected and its balance is judged)
+            l = next((x["name"] for x in s["links"] if (x["a"] in jn or x["b"] in jn) and abs(rows[-1]["flow"][x["name"]]) > 1e-5), None)
+            if l is None:
+                return None
             rows[-1]["flow"][l] += 1e-4
             return "flow of %s +1e-4" % l
         hyd.selftest(ck, "C01", good, props, mutate)
